@@ -212,7 +212,14 @@ class PropCheck:
         d = os.path.join(VERIF, 'corpus', self.pid)
         for f in sorted(glob.glob(os.path.join(d, '*.txt'))):
             ops = [l.rstrip('\n') for l in open(f) if l.strip() and not l.startswith('#') and not l.startswith('case ')]
-            out.append(Case('corpus_' + os.path.basename(f)[:-4], ops, {'corpus': True}))
+            meta = {'corpus': True}
+            for l in open(f):
+                if l.startswith('#meta '):
+                    try:
+                        meta.update(json.loads(l[6:]))
+                    except ValueError:
+                        pass
+            out.append(Case('corpus_' + os.path.basename(f)[:-4], ops, meta))
         return out
 
     def run(self, replay=None):
